@@ -18,7 +18,9 @@ RULE = ("abstract cues (1-3 per document, 1-3 lines each, each line 1-4 runs of 
         "tags from a pool that shares first letters with known tags). Expected display text = "
         "concatenated authored runs (voice -> 'Name: ' prefix, unknown tag -> literal), compared "
         "per line after trimming and collapsing whitespace. Non-trivial: the document contains "
-        "an entity or look-alike, a source-line wrap, or a tag.")
+        "an entity or look-alike, a source-line wrap, or a tag. "
+        'In a quarter of the cases the reader object has read another document before; XML '
+        'comments are placed after runs in DFXP / SAMI. ')
 ASSUMPTIONS = [
     "raw '<' or '&' is never emitted in XML/HTML/WebVTT text (documents are well-formed)",
     "texts avoid '<html' and 'no closed captioning available' (SAMIReader rejects those by "
